@@ -24,6 +24,9 @@ from . import catalogue as C
 from .core import HarnessError
 
 
+MSG_DTYPES = {"float32": torch.float32, "float64": torch.float64, "int64": torch.int64, "int32": torch.int32, "uint8": torch.uint8, "int8": torch.int8, "float16": torch.float16, "bfloat16": torch.bfloat16}
+
+
 class TapModulator(BaseModulator):
     def __init__(self, inner):
         super().__init__()
@@ -136,6 +139,7 @@ class LinkResult:
         self.bits_sent = None
         self.bits_received = None
         self.fired_history = 0
+        self.over_rows = []
 
 
 def run_link(case: dict) -> LinkResult:
@@ -178,7 +182,7 @@ def run_link(case: dict) -> LinkResult:
     else:
         raise HarnessError(kind)
     model = ChannelCodeModel(encoder=enc, constraint=IdentityConstraint(), modulator=tmod, channel=channel, demodulator=tdem, decoder=dec)
-    msg = torch.tensor(case["messages"], dtype=torch.float32)
+    msg = torch.tensor(case["messages"], dtype=MSG_DTYPES[case.get("msg_dtype", "float32")])
     if case.get("one_d"):
         msg = msg.reshape(-1)
     if case.get("warmup_messages"):
@@ -189,7 +193,7 @@ def run_link(case: dict) -> LinkResult:
         for wm in case["warmup_messages"]:
             try:
                 with torch.no_grad(), contextlib.redirect_stdout(io.StringIO()):
-                    w = torch.tensor(wm, dtype=torch.float32)
+                    w = torch.tensor(wm, dtype=MSG_DTYPES[case.get("msg_dtype", "float32")])
                     model(w, noise_var=case["noise_var"]) if case.get("soft") else model(w)
             except Exception:
                 pass
@@ -221,7 +225,11 @@ def run_link(case: dict) -> LinkResult:
         per_block = (sent != got).sum(dim=1)
         res.max_flips_per_block = int(per_block.max()) if per_block.numel() else 0
         res.fired = {"bit_flips": int(per_block.sum())}
-        res.in_budget = res.max_flips_per_block <= plan["t"]
+        # budget is judged row by row: a row with a block of more than t flips is relaxed, the others are not
+        nrows = tmod.sym_out.reshape(-1, tmod.sym_out.shape[-1]).shape[0]
+        per_row = per_block.reshape(nrows, -1).max(dim=1).values
+        res.over_rows = [int(i) for i in (per_row > plan["t"]).nonzero().reshape(-1)]
+        res.in_budget = len(res.over_rows) < nrows
         res.bits_sent, res.bits_received = tmod.sym_out, tdem.sym_in
     if kind == "awgn" and tmod.sym_out is not None and tdem.sym_in is not None:
         disp = (tdem.sym_in.reshape(-1).to(torch.complex128) - tmod.sym_out.reshape(-1).to(torch.complex128)).abs()
